@@ -5,6 +5,7 @@ World transforms of nodes are the path products of C09; here: what the scene com
 Over any linearly ordered field (bounds) / any field of characteristic zero (measures).
 -/
 import TrimeshVerif.Proofs.Scene
+import TrimeshVerif.Proofs.GeomRat
 namespace TV.C10
 open TV.Mat3 TV.Affine TV.Scene
 
@@ -52,5 +53,27 @@ theorem C10_instance_volume [CharZero K] (L : M3 K) (t a b c : V3 K) :
       vol (transformPoint L t a) (transformPoint L t b) (transformPoint L t c)
         = L.det * vol a b c + (h a b + h b c + h c a) := by
   exact ⟨volEdge L t, volEdge_antisymm L t, vol_transformPoint L t a b c⟩
+
+
+/-! ### the executable rational model run by the driver (Model/GeomRat.lean) -/
+section rat
+open TV.GeomRat
+
+/-- what the driver evaluates is the generic definition at ℚ (by `rfl`) -/
+theorem C10_rat_model_is_generic (i : InstanceR) (p0 : TV.GeomRat.V) (ps : List TV.GeomRat.V) :
+    placedR i = TV.Scene.placed (toInst i) ∧ lowerR p0 ps = TV.Scene.lower p0 ps ∧
+    upperR p0 ps = TV.Scene.upper p0 ps ∧ nodeLowerR i p0 = TV.Scene.nodeLower (toInst i) p0 ∧
+    nodeUpperR i p0 = TV.Scene.nodeUpper (toInst i) p0 :=
+  ⟨placedR_eq i, lowerR_eq p0 ps, upperR_eq p0 ps, nodeLowerR_eq i p0, nodeUpperR_eq i p0⟩
+
+theorem C10_rat_node_bounds (i : InstanceR) (p0 : TV.GeomRat.V) :
+    nodeLowerR i p0 = lowerR (transformR i.L i.t p0) (placedR i) ∧
+    nodeUpperR i p0 = upperR (transformR i.L i.t p0) (placedR i) :=
+  rat_node_bounds i p0
+
+theorem C10_rat_lower_is_bound (p : TV.GeomRat.V) (ps : List TV.GeomRat.V) :
+    ∀ q ∈ p :: ps, (lowerR p ps).1 ≤ q.1 ∧ (lowerR p ps).2.1 ≤ q.2.1 ∧ (lowerR p ps).2.2 ≤ q.2.2 :=
+  rat_lower_is_bound p ps
+end rat
 
 end TV.C10
